@@ -1422,7 +1422,7 @@ class UBCalculation:
             np.arctan2(hkl_offset_along_axis, hkl_offset_along_perp_axis)
             if (
                 (abs(hkl_offset_along_perp_axis) > SMALL)
-                and (abs(hkl_offset_along_axis) > SMALL)
+                or (abs(hkl_offset_along_axis) > SMALL)
             )
             else 0
         )
